@@ -51,13 +51,39 @@ def build_events(case):
             kind = rng.choice(RUNTIME)
             events.append((prog, {"kind": kind, "seed": rng.randrange(1 << 30)}))
             continue
-        if r < 0.4:
+        if r < 0.3 and rng.random() < 0.4:
+            # aimed pair: a function re-executed unchanged and a variable it reads re-bound / mutated, in either
+            # order, with nobody asking for a version in between
+            users = [i for i, nd in enumerate(prog["nodes"]) if nd["reads"]]
+            if users:
+                i = rng.choice(users)
+                redef = {"kind": "redef_same", "node": i, "var": None, "changed_defs": [i]}
+                vj = rng.choice(prog["nodes"][i]["reads"])["v"]
+                res = progs.apply_edit(rng, prog, "var_mutate" if (prog["vars"][vj]["type"] in ("list", "dict") and rng.random() < 0.4)
+                                       else "var_value", force_var=vj)
+                if res is not None:
+                    prog2, vdesc = res
+                    if rng.random() < 0.5:
+                        redef["silent"] = True
+                        events += [(prog, redef), (prog2, vdesc)]
+                    else:
+                        vdesc["silent"] = True
+                        events += [(prog2, vdesc), (prog2, redef)]
+                    prog = prog2
+                    continue
+        if r < 0.26:
+            # a definition re-executed unchanged (a notebook cell run again, a module reloaded)
+            i = rng.randrange(len(prog["nodes"]))
+            res = (prog, {"kind": "redef_same", "node": i, "var": None, "changed_defs": [i]})
+        elif r < 0.45:
             res = progs.apply_special(rng, prog, rng.choice(SPECIAL))
         else:
             res = progs.random_edit(rng, prog, EDITS)
         if res is None:
             continue
         prog, desc = res
+        # now and then nobody asks for a version between two events
+        desc["silent"] = rng.random() < 0.3
         events.append((prog, desc))
     return events
 
@@ -217,6 +243,9 @@ def inproc_child(arg):
         elif k > 0:
             deliver(log, prev, prog, desc, pkg)
             prev = prog
+        if desc.get("silent"):
+            steps.append({"versions": {}, "cells": len(log.cells), "names": [], "silent": True})
+            continue
         steps.append({"versions": query(prog, pkg, names), "cells": len(log.cells), "names": names, **extra})
     return {"steps": steps, "cells": log.cells}
 
@@ -242,6 +271,9 @@ def run_case(case):
             desc = events[k][1]
             out["sets"]["event_kinds"].add(desc["kind"])
             out["obs"]["event:" + desc["kind"]] += 1
+            if st.get("silent"):
+                out["obs"]["events_without_a_query_after_them"] += 1
+                continue
             try:
                 oracle = procs.in_child(oracle_child, {"prog0": events[0][0], "cells": res["cells"][: st["cells"]],
                                                       "pkg": events[0][0]["pkg"], "src": sc.path("o%d" % k), "names": st["names"]})
